@@ -388,7 +388,7 @@ class RewriteRule(Pattern):
                 f"Number of outputs from replacement function does not match the number of outputs from the target pattern. "
                 f"Expected {self._target_pattern.num_outputs}, but got {len(replacement_subgraph.new_outputs)}."
             )
-        if self.remove_nodes and not self.as_function:
+        if self.remove_nodes:
             # A pattern variable may be bound to a value computed inside the match (Sub(Mul(x, y), z)
             # matches Sub(t, t) with t = Mul(x, y)): a replacement that uses it cannot be applied,
             # as the node that computes the value is about to be removed.
